@@ -287,3 +287,24 @@ def rooted_paths(toks, out=None):
             continue
         i += 1
     return out
+
+
+def header_context(hdr):
+    """(kind, fallible, counterpart) from an impl header text (tokens joined by spaces), or None"""
+    i = hdr.find('impl')
+    m = HDR_RE.match(hdr[i:]) if i >= 0 else None
+    if not m:
+        return None
+    name, arg, self_ty = m.group(2), m.group(3), m.group(4)
+    arg_ref, self_ref = arg.startswith('&'), self_ty.startswith('&')
+    arg = norm_ty(re.sub(r"^& (?:' o2o )?", '', arg))
+    self_ty = norm_ty(re.sub(r"^& (?:' o2o )?", '', self_ty))
+    fallible = name.startswith('Try')
+    base = name[3:] if fallible else name
+    if base == 'From':
+        return ('from_ref' if arg_ref else 'from_owned', fallible, arg)
+    if base == 'Into':
+        return ('ref_into' if self_ref else 'owned_into', fallible, arg)
+    if base == 'IntoExisting':
+        return ('ref_into_existing' if self_ref else 'owned_into_existing', fallible, arg)
+    return None
